@@ -32,6 +32,8 @@ func main() {
 		switch os.Args[2] {
 		case "needs":
 			genNeeds(seed, n, os.Args[5])
+		case "converge":
+			genConverge(seed, n, os.Args[5])
 		default:
 			os.Exit(2)
 		}
@@ -46,6 +48,8 @@ func main() {
 		switch os.Args[2] {
 		case "needs":
 			oracleNeeds(os.Args[3], os.Args[4])
+		case "converge":
+			oracleConverge(os.Args[3], os.Args[4])
 		default:
 			os.Exit(2)
 		}
